@@ -11,6 +11,7 @@ var harnessOf = map[string]*sim.Harness{
 	"C20": HBatch,
 	"C10": HTimer,
 	"C17": HSSTWAL,
+	"C02": HOp, "C03": HOp, "C06": HOp, "C11": HOp,
 	"C12": HStore, "C13": HStore,
 }
 
